@@ -13,7 +13,7 @@ from pytoniq_core.crypto.signature import sign_message, verify_sign
 PROP = 'C20'
 TRACE_MODULE = 'C20Trace.tla'
 RULE = ('channels: seeded key pairs, both orderings of the ids and equal ids (self-channel and forced equal ids), plaintext lengths '
-        '{0, 1, 15, 16, 17, 64, 1000}; signatures: genuine + altered message / key / signature; mnemonics from mnemonic_new; distinct = '
+        '{0, 1, 15, 16, 17, 64, 1000}; sequences of 2-6 packets on one channel pair, every packet held until the end; signatures: genuine + altered message / key / signature; mnemonics from mnemonic_new (defaults, explicit count, with a password); distinct = '
         'distinct (key pair, plaintext) channels + signature cases')
 ASSUMPTIONS = ['X25519, Ed25519, AES-CTR, PBKDF2 are not specified in TLA+: the shared secret is recomputed with nacl.bindings.crypto_scalarmult, '
                'the reference ciphertext with Cryptodome AES-CTR under the key/iv that TLC checks against the spec layout',
@@ -50,11 +50,39 @@ def chan_record(rng, sa, sb, plain, ids=None):
     return rec
 
 
+def chan_seq_record(rng, sa, sb, plains):
+    """ONE pair of channels used for a sequence of packets in both directions; every packet is kept by its receiver-to-be
+    (in flight, queued) while later ones are produced and is delivered only at the end"""
+    ca, cb = Client(sa), Client(sb)
+    pa, pb = ca.ed25519_public.encode(), cb.ed25519_public.encode()
+    ida = hashlib.sha256(b'\xc6\xb4\x13\x48' + pa).digest()
+    idb = hashlib.sha256(b'\xc6\xb4\x13\x48' + pb).digest()
+    A = AdnlChannel(ca, Server('h', 1, pb), ida, idb)
+    B = AdnlChannel(cb, Server('h', 1, pa), idb, ida)
+    shared = crypto_scalarmult(SigningKey(sa).to_curve25519_private_key().encode(), VerifyKey(pb).to_curve25519_public_key().encode())
+    held, ev = [], []
+    for k, plain in enumerate(plains):
+        frm = 'A' if (k % 3) != 2 else 'B'
+        pkt = (A if frm == 'A' else B).encrypt(plain)
+        held.append(pkt)
+        ev.append({'frm': frm, 'plain': list(plain), 'now': list(bytes(pkt))})
+    for e, pkt in zip(ev, held):
+        e['later'] = list(bytes(pkt))
+        rcv = B if e['frm'] == 'A' else A
+        try:
+            e['dec'] = list(rcv.decrypt(bytes(pkt[64:]), bytes(pkt[32:64])))
+        except Exception as ex:
+            e['dec'] = [-1]
+    return {'op': 'chan_seq', 'ida': list(ida), 'idb': list(idb), 'shared': list(shared), 'events': ev}
+
+
 def generate(tier, seed, ctx):
     rng = random.Random(seed)
     q = tier == 'quick'
     out = []
     rb = lambda n: bytes(rng.getrandbits(8) for _ in range(n))
+    for k in range(8 if q else 300):
+        out.append(chan_seq_record(rng, rb(32), rb(32), [rb(rng.choice([0, 1, 16, 17, 200])) for _ in range(rng.choice([2, 3, 6]))]))
     for k in range(40 if q else 1500):
         sa, sb = rb(32), rb(32)
         n = rng.choice([0, 1, 15, 16, 17, 64, 1000])
@@ -100,8 +128,11 @@ def generate(tier, seed, ctx):
         rec = {'op': 'sig', 'label': 'client_sign', 'genuine': 1, 'siglen': len(c.sign(msg)), 'verified': int(bool(verify_sign(sk.verify_key.encode(), msg, c.sign(msg))))}
         out.append(rec)
     mn = []
-    for k in range(3 if q else 40):
-        w = K.mnemonic_new()
+    for k in range(4 if q else 40):
+        # every way the generator can be asked: defaults, explicit word count, with a password (positional and by keyword)
+        how = k % 4
+        w = K.mnemonic_new() if how == 0 else K.mnemonic_new(24) if how == 1 else K.mnemonic_new(24, 'correct horse %d' % k) if how == 2 \
+            else K.mnemonic_new(password='p%d' % k)
         mn.append(w)
         first = K.mnemonic_to_wallet_key(w)
         rec = {'op': 'mnemonic', 'n': len(w), 'inlist': int(all(x in K.words for x in w)), 'valid': int(K.mnemonic_is_valid(w))}
@@ -186,6 +217,8 @@ def canary(r, rng):
 
 
 def nontrivial_key(r):
+    if r['op'] == 'chan_seq':
+        return ('chan_seq', bytes(r['shared']))
     if r['op'] == 'chan':
         return ('chan', bytes(r['shared']), bytes(r['plain']), bytes(r['ida']) > bytes(r['idb']))
     if r['op'] == 'sig':
